@@ -29,10 +29,10 @@ PROP = dict(
           'allocates or takes a metadata in/out parameter; distinct by hash '
           'of (target kind, parameters, array contents, history kinds / '
           'lengths / array modes, both paint words)'),
-    quick=dict(configs=['rel', 'dbg', 'asan', 'oom', 'msan'], cases=320000,
+    quick=dict(configs=['rel', 'dbg', 'asan', 'oom', 'msan'], cases=400000,
                maxlen=320, dump_from='rel', dump_every=5, dump_max=5000,
                shares={'rel': 5, 'dbg': 4, 'asan': 4, 'oom': 3}),
-    thorough=dict(configs=['rel', 'dbg', 'asan', 'oom', 'msan'], cases=4000000,
+    thorough=dict(configs=['rel', 'dbg', 'asan', 'oom', 'msan'], cases=3600000,
                   maxlen=400, dump_from='rel', dump_every=6, dump_max=40000,
                   shares={'rel': 5, 'dbg': 4, 'asan': 4, 'oom': 3},
                   fuzz_s=90, setmax=1 << 23),
